@@ -282,7 +282,8 @@ def run_property(prop, tier, seed):
         return 3
     if violations:
         return 1
-    if n_obl == 0:
+    if n_obl == 0 and not proof_lost:
+        # nothing was generated and nothing was reported lost: the check itself is broken (vacuity guard)
         print(f'CHECKER-FAULT property={prop}: zero obligations')
         return 3
     return 0
